@@ -60,6 +60,11 @@ func (s *Service) AttestationData(ctx context.Context,
 				return
 			}
 			attestationData := attestationDataResponse.Data
+			if attestationData == nil {
+				log.Warn().Dur("elapsed", time.Since(started)).Msg("Obtained nil attestation data")
+
+				return
+			}
 			log.Trace().Dur("elapsed", time.Since(started)).Msg("Obtained attestation data")
 
 			ch <- attestationData
